@@ -4,6 +4,7 @@ import KyupyVerif.Proofs.CircObjStats
 import KyupyVerif.Proofs.CircObjSubst
 import KyupyVerif.Proofs.CircObjSubstStatic
 import KyupyVerif.Proofs.CircObjSubstFull
+import KyupyVerif.Proofs.CircObjSubstOpen
 /-! # C09 — circuit graph stays consistent under every edit history
 
 Object of the theorems: the hand-written object-level model `KV.CircObj` (Model/CircObj.lean) of `kyupy/circuit.py`:
@@ -46,8 +47,11 @@ fork outputs contain no `None`, ports are nodes of the circuit (plus model bookk
     `substPre` (kinds, no self loop, pin guards, `forksFull` of the result) with NO hypothesis on the implementation;
   - `resolve_wf` (`resolvePre`), `resolve_wf_static` (`resolveStatic`), uniformly `step2_wf`, and `history_wf2` /
     `history_wf2_prefix` for histories over all twelve operations.
-  What is NOT a structural theorem: `WFc` (not just `WFc0`) of `substitute` with open output pins — there `substPre`
-  contains the run-time check `forksFull` of the result; D30 is a use of that kind where the real code leaves a gap.
+  - `substitute_wf_open` / `substStatic_pre_open`: open output pins.  `setPin` predicts structurally which output pins of
+    the copied nodes hold a line (exact: `setPin_sound`, `setPin_complete`); when for every copied fork these pins form an
+    initial segment (`substOpenOK`), the result (dangling logic removed) satisfies `WFc`;
+  What is NOT covered by a structural theorem: uses where `substOpenOK` is false — there the real code leaves a `None`
+  gap in a copied fork (D30, `exGap`); `substitute_wf0_static` still gives `WFc0` for them.
 * **Correspondence** (harness/c09.py, differential, not proof): the model against the real `kyupy.circuit` API on random
   edit histories — canonical dump after EVERY step (node kinds, names, pin lists as line indices, line ends, `io_nodes`,
   `cells`/`forks` in dictionary order, `stats`) must be equal, `pre` must accept every generated operation, and `invOK` of
@@ -234,13 +238,25 @@ theorem substitute_wf_static {c c' : Circ} {i : Nat} {impl : Circ} (wf : WFc c) 
 theorem substStatic_pre {c : Circ} {i : Nat} {impl : Circ} (wf : WFc c) (hst : substStatic c i impl = true)
     (hreg : substRegular c i impl = true) : substPre c i impl = true := KV.CircObj.substPre_of_static wf hst hreg
 
+/-- open output pins, structural precondition only: `setPin` predicts from the structure of host pin list and
+implementation which output pins of every copied node hold a line after the call (the prediction is exact:
+`setPin_sound`, `setPin_complete` in Proofs/CircObjSubstOpen.lean); if for every copied FORK the predicted pins form an
+initial segment (`substOpenOK`), the result — after the removal of the dangling logic behind the open pins — satisfies
+`WFc`.  D30 (`exGap`) is exactly a use where `substOpenOK` is false. -/
+theorem substitute_wf_open {c c' : Circ} {i : Nat} {impl : Circ} (wf : WFc c) (hst : substStatic c i impl = true)
+    (hopen : substOpenOK c i impl = true) (h : substituteObj c i impl = some c') : WFc c' :=
+  KV.CircObj.substituteObj_wf_open wf hst hopen h
+
+theorem substStatic_pre_open {c : Circ} {i : Nat} {impl : Circ} (wf : WFc c) (hst : substStatic c i impl = true)
+    (hopen : substOpenOK c i impl = true) : substPre c i impl = true := KV.CircObj.substPre_of_static_open wf hst hopen
+
 /-- `c.resolve_tlib_cells(tlib)`: the loop over the snapshot `list(self.nodes)`; `resolvePre` = every substitution it
 performs is a well-formed use -/
 theorem resolve_wf {lib : Lib} {c c' : Circ} (wf : WFc c) (hpre : resolvePre lib c = true) (h : resolveObj lib c = some c') :
     WFc c' := KV.CircObj.resolveObj_wf wf hpre h
 
-/-- `resolve_tlib_cells` when every substitution it performs is a regular structural one (`resolveStatic`: `substStatic`
-and `substRegular` on the circuit as it is when that substitution starts) -/
+/-- `resolve_tlib_cells` when every substitution it performs is a structural one (`resolveStatic`: `substStatic` and
+`substRegular` or `substOpenOK` on the circuit as it is when that substitution starts) -/
 theorem resolve_wf_static {lib : Lib} {c c' : Circ} (wf : WFc c) (hst : resolveStatic lib c = true)
     (h : resolveObj lib c = some c') : WFc c' := resolve_wf wf (KV.CircObj.resolvePre_of_static wf hst) h
 
@@ -314,9 +330,20 @@ def exGap : Circ := setState
     lines := [(0, 0, 1, 0), (1, 0, 3, 0), (1, 1, 2, 0), (2, 0, 4, 0)], io := [0, 4, 3] }
 example : ((run2 empty [.base (.addNode "a" "input"), .base (.addNode "u" "CELLX1"), .base (.addNode "o" "output"),
     .base (.addLine 0 none 1 none), .base (.addLine 1 (some 0) 2 none), .base (.ioAppend 0), .base (.ioAppend 2)]).map fun c =>
-    (substStatic c 1 exGap, substRegular c 1 exGap, substPre0 c 1 exGap, substPre c 1 exGap, (substituteObj c 1 exGap).map invOK)) =
-    some (true, false, true, false, some false) := by
+    (substStatic c 1 exGap, substRegular c 1 exGap, substOpenOK c 1 exGap, substPre0 c 1 exGap, substPre c 1 exGap,
+     (substituteObj c 1 exGap).map invOK)) = some (true, false, false, true, false, some false) := by
   decide +kernel
+
+/-- an open output pin that leaves no gap: the half adder of `exHistory2` with its second output open — the OR gate behind
+it is dangling and is removed together with its two input lines (two fork squeezes): `substOpenOK` holds, 6 nodes, 5 lines -/
+def exHistoryOpen : List Op2 :=
+  [.base (.addNode "a" "input"), .base (.addNode "b" "input"), .base (.addNode "u" "HA"), .base (.addNode "ox" "output"),
+   .base (.addLine 0 none 2 (some 0)), .base (.addLine 1 none 2 (some 1)), .base (.addLine 2 (some 0) 3 none),
+   .base (.ioAppend 0), .base (.ioAppend 1), .base (.ioAppend 3)]
+example : ((run2 empty exHistoryOpen).map fun c => (substStatic c 2 exImpl, substRegular c 2 exImpl, substOpenOK c 2 exImpl)) =
+    some (true, false, true) := by decide +kernel
+example : ((run2 empty (exHistoryOpen ++ [.substitute 2 exImpl])).map fun c => (c.nodes.length, c.lines.length, invOK c)) =
+    some (6, 5, true) := by decide +kernel
 
 /-! ## statistics -/
 /-- `cells.values()` is a permutation of the non-fork nodes, `forks.values()` of the fork nodes -/
